@@ -245,6 +245,13 @@ def logTrack (t : String) : Log → String → Option String
   | [], c => some c
   | (st, ok) :: rest, c => if ok then (st.track t c).bind (logTrack t rest) else logTrack t rest c
 
+/-- the statements of an interrupted open whose effect is durable: none when the open had to create the
+`revision` table (its `INSERT` opened a transaction, rolled back with everything after it), else all executed -/
+def interruptedDurableLog (tbl : Table) (s : RStore) (j : Nat) : Log :=
+  match s.rev with
+  | .noTable => []
+  | _ => (interruptedR tbl s j).2
+
 /-- one row per table holding, in every column, the column's own name (sample content for the examples) -/
 def sampleData (s : Schema) : Data :=
   s.map fun tc => { name := tc.1, cols := tc.2, rows := [tc.2.map fun c => (c, some c)] }
